@@ -300,8 +300,11 @@ impl KotoVm {
 
         // Run the chunk
         let result = self.execute_instructions();
-        if result.is_err() {
+        if result.is_err() || matches!(self.execution_state, ExecutionState::Suspended) {
+            // An error, or a `yield` at the top level of the chunk, ends the run with the chunk's
+            // frame still on the call stack, so discard it here.
             self.pop_frame(KValue::Null)?;
+            self.execution_state = ExecutionState::Inactive;
         }
 
         // Reset the register stack back to where it was at the start of the run
